@@ -97,6 +97,10 @@ pub fn c10(ctx: &Ctx) -> PropResult {
             cases.push(run_case(format!("{}{}", exemplar_prelude(), f), "statement-form"));
         }
     }
+    // FOR EACH whose body changes the list being traversed (directly, through an alias, through a procedure)
+    for src in for_each_mutation_family() {
+        cases.push(run_case(src, "for-each-mutates-list"));
+    }
     // sequences that build up state first
     let n = if ctx.quick() { 1_500 } else { 40_000 };
     for _ in 0..n {
@@ -113,6 +117,45 @@ pub fn c10(ctx: &Ctx) -> PropResult {
         exhaustive: false,
         notes: vec![],
     }
+}
+
+/// every list length 0..4 x every iteration k x one mutation of the traversed list at iteration k x how the
+/// iteration then ends (falls off the end / CONTINUE / BREAK / RETURN from a procedure)
+pub fn for_each_mutation_family() -> Vec<String> {
+    let muts = [
+        "REMOVE(l, 1)",
+        "REMOVE(l, LENGTH(l))",
+        "REMOVE(l, 1)\nREMOVE(l, 1)",
+        "REPEAT UNTIL (LENGTH(l) == 0) {\nREMOVE(l, 1)\n}",
+        "APPEND(l, 9)",
+        "INSERT(l, 1, 0)",
+        "l <- [7]",
+        "shrink(l)",
+        "REMOVE(al, 1)",
+        "x <- [x]",
+        "l[n] <- 0 - x",
+    ];
+    let ends = ["", "CONTINUE\n", "BREAK\n"];
+    let mut out = vec![];
+    for len in 0..5usize {
+        let lit: Vec<String> = (1..=len).map(|i| (i * 10).to_string()).collect();
+        for k in 1..=len.max(1) {
+            for m in muts {
+                for e in ends {
+                    out.push(format!(
+                        "PROCEDURE shrink(p) {{\nIF (LENGTH(p) > 0) {{\nREMOVE(p, LENGTH(p))\n}}\n}}\nl <- [{}]\nal <- l\nn <- 0\nFOR EACH x IN l {{\nn <- n + 1\nDISPLAY(x)\nIF (n == {k}) {{\n{m}\n{e}}}\n}}\nDISPLAY(n)\nDISPLAY(l)\nDISPLAY(al)\n",
+                        lit.join(", ")
+                    ));
+                }
+            }
+            // the same inside a procedure that returns from within the loop
+            out.push(format!(
+                "PROCEDURE f(l) {{\nn <- 0\nFOR EACH x IN l {{\nn <- n + 1\nIF (n == {k}) {{\nREMOVE(l, 1)\nRETURN x\n}}\n}}\nRETURN n\n}}\nq <- [{}]\nDISPLAY(f(q))\nDISPLAY(q)\n",
+                lit.join(", ")
+            ));
+        }
+    }
+    out
 }
 
 // ---------------------------------------------------------------------------------------------
